@@ -116,6 +116,7 @@ type Session struct {
 	closedChan     chan struct{} // indicate the session is closed
 	readDeadline   atomic.Int64  // read deadline, in microseconds since Unix epoch
 	writeDeadline  atomic.Int64  // write deadline, in microseconds since Unix epoch
+	respDeadline   atomic.Int64  // client: how long the next Read waits for the server after a Write, in microseconds since Unix epoch
 	inputHasErr    atomic.Bool   // input has error
 	inputErr       chan error    // this channel is closed when input has error
 	outputHasErr   atomic.Bool   // output has error
@@ -226,8 +227,10 @@ func (s *Session) String() string {
 func (s *Session) Read(b []byte) (n int, err error) {
 	s.rLock.Lock()
 	defer s.rLock.Unlock()
+	// The deadline set by the user stays in force until the user changes it.
+	// The server response timeout armed by Write applies to one Read only.
 	defer func() {
-		s.readDeadline.Store(0)
+		s.respDeadline.Store(0)
 	}()
 	if len(b) == 0 {
 		return 0, nil
@@ -239,7 +242,11 @@ func (s *Session) Read(b []byte) (n int, err error) {
 
 	// Stop reading when deadline is reached.
 	var timeC <-chan time.Time
-	if readDeadline := s.readDeadline.Load(); readDeadline != 0 {
+	readDeadline := s.readDeadline.Load()
+	if respDeadline := s.respDeadline.Load(); respDeadline != 0 && (readDeadline == 0 || respDeadline < readDeadline) {
+		readDeadline = respDeadline
+	}
+	if readDeadline != 0 {
 		timeC = time.After(time.Until(time.UnixMicro(readDeadline)))
 	}
 
@@ -688,7 +695,7 @@ func (s *Session) writeChunk(b []byte) (n int, err error) {
 	}
 
 	if s.isClient {
-		s.readDeadline.Store(time.Now().Add(serverRespTimeout).UnixMicro())
+		s.respDeadline.Store(time.Now().Add(serverRespTimeout).UnixMicro())
 	}
 	return len(b), nil
 }
